@@ -13,12 +13,6 @@ def replay(cls, path):
     im = run_impl([s]); mo = run_model([s])
     print("script:"); [print("  ", e) for e in s.events]
     print("implementation:", im.get(s.id)); print("model:         ", mo.get(s.id))
-    rc = 0
-    if chk.spec_mode:
-        sp = chk.spec_script(s, im.get(s.id, []))
-        if sp:
-            so = run_model([sp], chk.spec_mode)
-            v = chk.spec_compare(s, im.get(s.id, []), so.get(sp.id, []))
-            print("reference:     ", so.get(sp.id)); print("verdict:", v or "accepted")
-            rc = 1 if v else 0
-    return rc
+    rep = chk.oracle_report(s)
+    print("reference verdict:", json.dumps(rep, indent=1) if rep else "accepted")
+    return 1 if rep else 0
